@@ -1,15 +1,18 @@
 import IV.Lemmas.CleanLine
+import IV.Lemmas.CleanPassword
 /-!
 C08 — glue lemmas about `cleanLine` / `runStages` used by the property theorems.
 -/
 namespace IV.CleanLine
 
-/-! ### helpers about `cleanLine` -/
-
-theorem chars_orig (s : Str) : chars (orig s) = s := by
+theorem chars_ins (s : Str) : chars (ins s) = s := by
   induction s with
   | nil => rfl
-  | cons c cs ih => simp_all [chars, orig]
+  | cons c cs ih => simp_all [chars, ins]
+
+theorem chars_append (a b : PStr) : chars (a ++ b) = chars a ++ chars b := by simp [chars]
+
+/-! ### helpers about `cleanLine` -/
 
 theorem allOrig_orig (s : Str) : allOrig (orig s) := by
   intro x hx
@@ -117,5 +120,19 @@ theorem NoOrigOcc.append {k : Str} (r : Str) {s : PStr} (h : NoOrigOcc k s) : No
 theorem macTok_ne_nil {t : Str} (h : MacTok t) : t ≠ [] := by
   obtain ⟨s, a0, a1, b0, b1, c0, c1, d0, d1, e0, e1, f0, f1, _, _, _, _, _, _, _, _, _, _, _, _, _, rfl⟩ := h
   simp
+
+/-- a table all of whose substitutes are non-empty (a decidable check) is `TblOk` -/
+theorem tblOk_of_all (t : List (Str × Str)) (h : t.all (fun kv => !kv.2.isEmpty) = true) : TblOk t := by
+  induction t with
+  | nil => intro k v hkv; simp [lookup] at hkv
+  | cons a r ih =>
+    obtain ⟨x, y⟩ := a
+    simp only [List.all_cons, Bool.and_eq_true] at h
+    intro k v hkv
+    simp only [lookup] at hkv
+    split at hkv
+    · simp at hkv; subst hkv
+      intro hv; simp [hv] at h
+    · exact ih h.2 k v hkv
 
 end IV.CleanLine
